@@ -33,11 +33,14 @@ struct HdrSession {
                         for (auto &b : f.extra)
                                 b = (uint8_t) gr.u64();
                 }
+                // strings have no length limit in RFC 1952: plan values of 100000 and more stand for long ones (up to 80000 bytes, i.e.
+                // beyond what a 16-bit offset can address); smaller values are taken modulo 3000 as before
+                auto slen = [](int64_t v) { return (uint64_t) v >= 100000 ? ((uint64_t) v - 100000) % 80001 : (uint64_t) v % 3000; };
                 if (f.has_name)
-                        for (uint64_t k = (uint64_t) g.geti("nlen") % 3000; k > 0; k--)
+                        for (uint64_t k = slen(g.geti("nlen")); k > 0; k--)
                                 f.name += (char) (1 + gr.below(255));
                 if (f.has_comment)
-                        for (uint64_t k = (uint64_t) g.geti("clen") % 3000; k > 0; k--)
+                        for (uint64_t k = slen(g.geti("clen")); k > 0; k--)
                                 f.comment += (char) (1 + gr.below(255));
                 return f;
         }
@@ -317,13 +320,13 @@ struct HdrSession {
                         return slot != nullptr;
                 };
                 if (nsz >= 0) {
-                        if (!setbuf(sn, nsz % 4000, "name_buf", nullptr, 0))
+                        if (!setbuf(sn, nsz >= 100000 ? (nsz - 100000) % 90000 : nsz % 4000, "name_buf", nullptr, 0))
                                 return;
                         gh->name = (char *) sn->data;
                         gh->name_buf_len = (uint32_t) sn->len;
                 }
                 if (csz >= 0) {
-                        if (!setbuf(sc, csz % 4000, "comment_buf", nullptr, 0))
+                        if (!setbuf(sc, csz >= 100000 ? (csz - 100000) % 90000 : csz % 4000, "comment_buf", nullptr, 0))
                                 return;
                         gh->comment = (char *) sc->data;
                         gh->comment_buf_len = (uint32_t) sc->len;
@@ -712,6 +715,12 @@ static Json gen_hdr(Rng &r0, const std::string &focus, int tier)
         static const uint32_t edge32[] = { 0, 1, 0xffffffffu, 0x80000000u, 0x00010000u, 0x000000ffu, 0xff000000u };
         gz.set("flags", r.chance(1, 8) ? 0 : r.chance(1, 4) ? 31 : (int) r.below(32)).set("mtime", r.chance(1, 2) ? 0x11223344u : r.chance(1, 3) ? r.pick(edge32) : r.u32()).set("xfl", r.chance(1, 6) ? (r.chance(1, 2) ? 0 : 255) : (int) r.below(256)).set("os", r.chance(1, 6) ? (r.chance(1, 2) ? 0 : 255) : (int) r.below(256)).set("s", r.u64() >> 20);
         gz.set("xlen", r.chance(1, 2) ? r.pick(xl) : (uint32_t) r.logsize(65535)).set("nlen", r.chance(1, 2) ? r.pick(sl) : (uint32_t) r.logsize(2999)).set("clen", r.chance(1, 2) ? r.pick(sl) : (uint32_t) r.logsize(2999));
+        bool longstr = r.chance(1, 12);
+        if (longstr) { // a name or comment longer than 64 KiB, read in pieces that end beyond offset 65535 and/or into buffers that overflow there
+                static const uint32_t ll[] = { 65535, 65536, 65537, 66000, 70000, 80000 };
+                gz.set(r.chance(1, 2) ? "nlen" : "clen", (int64_t) 100000 + r.pick(ll));
+                gz.set("flags", (int) (gz.geti("flags") | 8 | 16));
+        }
         p.set("gz", gz);
         Json zl = Json::obj();
         zl.set("info", (int) r.below(8)).set("level", (int) r.below(4)).set("fdict", (int) r.below(2)).set("dictid", r.chance(1, 2) ? 0x11223344u : r.chance(1, 2) ? r.pick(edge32) : r.u32());
@@ -724,12 +733,21 @@ static Json gen_hdr(Rng &r0, const std::string &focus, int tier)
         int mode = (int) r.below(4);
         for (int k = (int) r.below(mode == 0 ? 3 : 60); k > 0; k--)
                 sp.push(mode == 1 ? 1 : mode == 2 ? (int) (1 + r.below(12)) : (int) r.logsize(3000));
+        if (longstr) {
+                sp = Json::arr();
+                for (int k = (int) r.below(6); k > 0; k--)
+                        sp.push((int) (r.chance(1, 2) ? 60000 + r.below(9000) : r.logsize(69999)));
+        }
         p.set("splits", sp);
         Json bf = Json::arr();
         for (int k = 0; k < 3; k++) {
                 uint64_t q = r.below(8);
                 bf.push(q == 0 ? -1 : q < 4 ? (int64_t) r.below(12) : q < 6 ? (int64_t) r.logsize(k == 2 ? 66000 : 3200) : (int64_t) (k == 2 ? 66000 : 3200));
         }
+        if (longstr)
+                for (int k = 0; k < 2; k++)
+                        if (r.chance(2, 3))
+                                bf.a[k] = Json((int64_t) (100000 + (r.chance(1, 2) ? 60000 + r.below(25000) : r.below(90000))));
         p.set("bufs", bf).set("grow", (int) (r.chance(1, 2) ? r.below(4) : r.below(600))).set("ps", r.u64() >> 20).set("tailbytes", (int) r.below(40));
         p.set("prior", r.chance(1, 3) ? (int) (1 + r.below(3)) : 0);
         p.set("unterm", r.chance(1, 8) ? (int) (1 + r.below(3)) : 0).set("untermk", r.chance(1, 2) ? 0 : (int64_t) r.below(1 << 16));
